@@ -3,6 +3,8 @@ package main
 import (
 	"fmt"
 	"go/token"
+	"go/types"
+	"os"
 	"regexp"
 	"sort"
 	"strings"
@@ -20,7 +22,7 @@ func init() {
 	})
 }
 
-var debugC12 = false
+var debugC12 = os.Getenv("WTDEBUG_C12") != ""
 
 type dispatcher struct {
 	name, local, remote, helper, route, handler string
@@ -364,53 +366,7 @@ func rulesC12(w *World, r *Report) {
 		if dec == nil {
 			r.Undecided("C12.R5", d.name+":client-not-exist", "-", "client decoder not found")
 		} else {
-			okC := false
-			for _, b := range dec.Blocks {
-				if len(b.Instrs) == 0 {
-					continue
-				}
-				iff, ok := b.Instrs[len(b.Instrs)-1].(*ssa.If)
-				if !ok {
-					continue
-				}
-				e := newExprCtx(w).expr(iff.Cond)
-				if debugC12 {
-					fmt.Println("DEBUG cond", funcName(dec), e)
-				}
-				// "the body is empty", in any spelling: len(body) == 0 / < 1 / <= 0 on the true edge, != 0 / > 0 / >= 1 on the false edge
-				body := `len\((io/ioutil|io)\.ReadAll\(.*\)#0\)`
-				emptyEdge := -1
-				switch {
-				case regexp.MustCompile(`^\((0 == ` + body + `|` + body + ` <= 0|` + body + ` < 1)\)$`).MatchString(e):
-					emptyEdge = 0
-				case regexp.MustCompile(`^\((0 != ` + body + `|0 < ` + body + `|1 <= ` + body + `)\)$`).MatchString(e):
-					emptyEdge = 1
-				}
-				if emptyEdge < 0 {
-					continue
-				}
-				for _, ret := range returnsOf(dec) {
-					if !edgeDominates(b, b.Succs[emptyEdge], ret.Block()) {
-						continue
-					}
-					vals, complete := resultValues(ret, len(ret.Results)-1)
-					all := complete && len(vals) > 0
-					for _, last := range vals {
-						if c, ok := last.(*ssa.Call); !ok || c.Common().StaticCallee() != fn(w.Cmd, "convertRemoteErrNotExist") {
-							all = false
-						}
-					}
-					if all {
-						okC = true
-					}
-				}
-				// the test must precede any decoding
-				for _, c := range callsIn(dec) {
-					if sc := c.Common().StaticCallee(); sc != nil && sc.Name() == "TakeFrom" && !b.Dominates(c.Block()) {
-						okC = false
-					}
-				}
-			}
+			okC := clientEmptyBodyMapped(w, dec)
 			r.Check(okC, "C12.R5", d.name+":client-not-exist", w.pos(dec.Pos()), "empty body -> convertRemoteErrNotExist before decoding", "the client decoder "+funcName(dec)+" does not map an empty response body to convertRemoteErrNotExist: a missing file read through a URL is not classified as not-existing")
 		}
 		// remote function returns the decoder's error unchanged
@@ -611,4 +567,141 @@ func pickHandler(w *World, v ssa.Value) *ssa.Function {
 		return pickHandler(w, x.X)
 	}
 	return nil
+}
+
+// clientEmptyBodyMapped: every value the decoder hands to its first TakeFrom has been tested for emptiness, the empty
+// outcome returning convertRemoteErrNotExist, before any decoding. The body is identified by its use (the bytes that
+// are decoded), not by how it was read from the response; a helper expanded into the decoder tests each of its results.
+func clientEmptyBodyMapped(w *World, dec *ssa.Function) bool {
+	isTake := func(c ssa.CallInstruction) bool {
+		sc := c.Common().StaticCallee()
+		return sc != nil && sc.Name() == "TakeFrom"
+	}
+	type leaf struct {
+		v   ssa.Value
+		blk *ssa.BasicBlock
+	}
+	var leaves func(v ssa.Value, blk *ssa.BasicBlock, seen map[ssa.Value]bool) []leaf
+	leaves = func(v ssa.Value, blk *ssa.BasicBlock, seen map[ssa.Value]bool) []leaf {
+		if ph, ok := v.(*ssa.Phi); ok {
+			if seen[ph] {
+				return nil
+			}
+			seen[ph] = true
+			var out []leaf
+			for i, e := range ph.Edges {
+				out = append(out, leaves(e, ph.Block().Preds[i], seen)...)
+			}
+			return out
+		}
+		return []leaf{{v, blk}}
+	}
+	var first ssa.CallInstruction
+	var body []leaf
+	for _, c := range callsIn(dec) {
+		if !isTake(c) {
+			continue
+		}
+		for _, a := range c.Common().Args {
+			sl, isSl := a.Type().Underlying().(*types.Slice)
+			if !isSl || !types.Identical(sl.Elem(), types.Typ[types.Byte]) {
+				continue
+			}
+			ls := leaves(a, c.Block(), map[ssa.Value]bool{})
+			fromTake := false
+			for _, l := range ls {
+				if ex, isEx := l.v.(*ssa.Extract); isEx {
+					if tc, isC := ex.Tuple.(*ssa.Call); isC && isTake(tc) {
+						fromTake = true
+					}
+				}
+			}
+			if !fromTake && (first == nil || c.Block().Dominates(first.Block())) {
+				first, body = c, ls
+			}
+		}
+	}
+	if first == nil {
+		// a text decoder: the body is what is converted to a string and split
+		for _, b := range dec.Blocks {
+			for _, in := range b.Instrs {
+				var xs []ssa.Value
+				switch t := in.(type) {
+				case *ssa.Convert:
+					xs = []ssa.Value{t.X}
+				case *ssa.Call:
+					if sc := t.Common().StaticCallee(); sc != nil && sc.Pkg != nil && sc.Pkg.Pkg.Path() != "io" && sc.Pkg.Pkg.Path() != "io/ioutil" {
+						xs = t.Common().Args
+					}
+				}
+				for _, x := range xs {
+					sl, isSl := x.Type().Underlying().(*types.Slice)
+					if !isSl || !types.Identical(sl.Elem(), types.Typ[types.Byte]) {
+						continue
+					}
+					body = append(body, leaves(x, b, map[ssa.Value]bool{})...)
+				}
+			}
+		}
+		if len(body) == 0 {
+			return false
+		}
+	} else if len(body) == 0 {
+		return false
+	}
+	// the first decoding step precedes all others
+	for _, c := range callsIn(dec) {
+		if first != nil && isTake(c) && !first.Block().Dominates(c.Block()) {
+			return false
+		}
+	}
+	for _, l := range body {
+		if c, isC := l.v.(*ssa.Const); isC && c.IsNil() {
+			continue // a nil body only travels with an error, which is returned first
+		}
+		tested := false
+		for _, b := range dec.Blocks {
+			if len(b.Instrs) == 0 {
+				continue
+			}
+			iff, ok := b.Instrs[len(b.Instrs)-1].(*ssa.If)
+			if !ok {
+				continue
+			}
+			lc, emptyWhenTrue, isLen := lenEmptyCond(iff.Cond)
+			if !isLen || len(lc.Common().Args) != 1 || lc.Common().Args[0] != l.v {
+				continue
+			}
+			if !b.Dominates(l.blk) {
+				continue
+			}
+			emptyEdge := 1
+			if emptyWhenTrue {
+				emptyEdge = 0
+			}
+			n, all := 0, true
+			for _, ret := range returnsOf(dec) {
+				if !edgeDominates(b, b.Succs[emptyEdge], ret.Block()) {
+					continue
+				}
+				n++
+				vals, complete := resultValues(ret, len(ret.Results)-1)
+				if !complete || len(vals) == 0 {
+					all = false
+				}
+				for _, last := range vals {
+					if c, ok := last.(*ssa.Call); !ok || c.Common().StaticCallee() != fn(w.Cmd, "convertRemoteErrNotExist") {
+						all = false
+					}
+				}
+			}
+			if n > 0 && all {
+				tested = true
+			}
+		}
+		if !tested {
+			return false
+		}
+	}
+	return true
 }
